@@ -265,6 +265,22 @@ func init() {
 }
 
 func c05Prim(r *core.Rng) *LeafDesc {
+	if r.Chance(1, 8) {
+		// a primitive of a defined type (type Attr string, type Level int ...) is a primitive
+		switch r.Intn(6) {
+		case 0:
+			return &LeafDesc{Tag: "named-int", I: int64(r.Intn(1000))}
+		case 1:
+			return &LeafDesc{Tag: "named-bool", B: r.Bool()}
+		case 2:
+			return &LeafDesc{Tag: "named-float", F: float64(r.Intn(1000)) / 4}
+		case 3:
+			return &LeafDesc{Tag: "named-str", S: fmt.Sprintf("ns%d", r.Intn(1000))}
+		case 4:
+			return &LeafDesc{Tag: "complex128", F: float64(r.Intn(100)), I: int64(r.Intn(100))}
+		}
+		return &LeafDesc{Tag: "rune", I: int64('a' + r.Intn(26))}
+	}
 	switch r.Intn(5) {
 	case 0:
 		return &LeafDesc{Tag: "int", I: int64(r.Intn(1000))}
@@ -405,11 +421,11 @@ func mutatePrim(l *LeafDesc) {
 	switch l.Tag {
 	case "nilptr":
 		l.Tag, l.I = "int", 7 // nil pointer vs pointer to a value
-	case "str":
+	case "str", "named-str":
 		l.S += "~"
-	case "bool":
+	case "bool", "named-bool":
 		l.B = !l.B
-	case "float32", "float64":
+	case "float32", "float64", "named-float":
 		l.F += 0.5
 	default:
 		l.I++
